@@ -780,7 +780,7 @@ def run(ctx):
             lcg_coq = key_lengths | set(rng.sample(sorted(lcg_lengths), 5))
         else:
             lcg_lengths = set(lengths)
-            lcg_coq = set(n for n in lengths if n % 4 == 0) | key_lengths
+            lcg_coq = set(n for n in lengths if n % 8 == 0) | key_lengths
         for n in lengths:
             near = abs(n - LIMIT) <= 3 or 256255 <= n <= 256260
             ms = (LIMIT + 1, LIMIT, n, n + 1, max(n - 1, 1)) if near or (n % 10 == 0 and not ctx.quick) else (LIMIT + 1,)
@@ -794,7 +794,7 @@ def run(ctx):
         # ---- C. small and assorted lengths, all classes
         small = [0, 1, 2, 3, 5, 6, 7, 10, 100, 255, 256, 257, 258, 259, 1000, 32767, 32768, 32769, 65535, 65536, 65537,
                  100000, 200000, 255000]
-        for n in small + [rng.randrange(0, 5000) for _ in range(ctx.scale(24, 600))] + \
+        for n in small + [rng.randrange(0, 5000) for _ in range(ctx.scale(24, 300))] + \
                 [rng.randrange(5000, LIMIT) for _ in range(ctx.scale(6, 80))]:
             cls = rng.choice(["const", "periodic", "lcg"]) if n not in small else None
             for c in ([cls] if cls else ["const", "periodic", "lcg"]):
@@ -806,7 +806,7 @@ def run(ctx):
                 roundtrip(d, contract_ms=(LIMIT + 1, max(1, n // 2), n + 1) if n < 70000 else (LIMIT + 1,),
                           contract_coq=(n in small and c != "lcg") or not ctx.quick)
         # short literal plaintexts (text-like, random)
-        for _ in range(ctx.scale(70, 3000)):
+        for _ in range(ctx.scale(70, 1000)):
             ln = rng.choice([0, 1, 2, 3, 4, 8, 16, 31, 64, 100, 300, 700])
             kind = rng.randrange(3)
             if kind == 0:
@@ -839,7 +839,7 @@ def run(ctx):
         if ctx.quick:
             combos = rng.sample(combos, 20) + [(6, 15, 0), (6, -15, 0), (-1, 15, 0), (9, 15, 0), (0, -15, 0), (0, 15, 0), (1, 15, 0)]
         for (lv, wb, st) in combos:
-            ns = f_lengths if not ctx.quick else rng.sample(f_lengths, 3) + [rng.choice([LIMIT, LIMIT + 1])]
+            ns = rng.sample(f_lengths, ctx.scale(3, 6)) + [rng.choice([LIMIT, LIMIT + 1])]
             for n in ns:
                 c = rng.choice(["const", "periodic", "const", "periodic", "const", "periodic", "lcg"])
                 d = {"cls": c, "n": n}
@@ -853,7 +853,7 @@ def run(ctx):
                     desc["flush"] = rng.choice([1000, 65536, 100000])
                 foreign(desc, contract_coq=rng.randrange(2) == 0 or not ctx.quick)
         # hand-assembled stored blocks (zero, random and maximal sizes; wrapped or raw)
-        for _ in range(ctx.scale(25, 500)):
+        for _ in range(ctx.scale(25, 200)):
             n = rng.choice([0, 1, 5, 65535, 65536, 70000, LIMIT - 1, LIMIT, LIMIT + 1, LIMIT + 258, 300000])
             c = rng.choice(["const", "periodic", "const", "periodic", "lcg"])
             d = {"cls": c, "n": n}
@@ -865,7 +865,7 @@ def run(ctx):
             foreign({"data": d, "how": "stored", "sizes": sizes, "wrap": rng.randrange(3) == 0,
                      "pad": 0})
         # malformed authenticated streams: truncated, corrupted, trailing octets
-        for _ in range(ctx.scale(45, 1200)):
+        for _ in range(ctx.scale(45, 400)):
             n = rng.choice([10, 300, 5120, 70000, LIMIT, LIMIT + 1, LIMIT + 300, 300000])
             c = rng.choice(["const", "periodic", "const", "periodic", "lcg"])
             d = {"cls": c, "n": n}
@@ -1161,7 +1161,7 @@ def run(ctx):
     SHARD, MAXCH = 40, 60000
     imports = ["From Model Require Import Base TableTypes C17Zip C17Cases."]
     ev = lib.CoqEval(imports, "c17case", "c17_check", None, shard=SHARD, max_chars=MAXCH)
-    res = ev.run(cases, jobs=12)
+    res = ev.run(cases, jobs=12, timeout=ctx.scale(900, 2400))
     if res["errors"]:
         # a shard killed on a loaded machine (memory): evaluate those shards again, fewer at a time
         bounds = dict(shard_bounds(cases, SHARD, MAXCH))
@@ -1244,5 +1244,76 @@ def replay(path):
         good = o == ("ok", p) and d.eof and not d.unused_data and not c.startswith(ZHEAD)
         print("compress |p|=%d -> head %s raw-stream=%r" % (len(p), c[:8].hex(), good))
         return 0 if good else 1
+    if fn == "jwe":
+        # re-build the token with fresh keys (same enc / serialization / stream / tampering) and decrypt it
+        import random
+        from joserfc import jwe
+        from joserfc.jwk import OctKey
+        from joserfc.rfc7516.registry import JWERegistry
+        desc = r["desc"]
+        enc = JWERegistry.algorithms["enc"][desc["enc"]]
+        rnd = random.Random(1)
+        key = OctKey.import_key(bytes(rnd.randrange(256) for _ in range(enc.cek_size // 8)))
+        kw = OctKey.import_key(bytes(rnd.randrange(256) for _ in range(16)))
+        zipv = desc.get("zip", "DEF")
+        with Instr() as ins:
+            zm = ins.zipmodel
+            if desc.get("how", "impl") == "impl":
+                p = data_of(desc["data"]); stream = None
+            else:
+                stream, p = build_stream(desc, zm)
+                zm.compress = lambda _p: stream
+            prot = {"enc": enc.name}
+            if zipv is not None:
+                prot["zip"] = zipv
+            payload = p if stream is None else b"x"
+            if desc.get("ser") == "general":
+                obj = jwe.GeneralJSONEncryption(prot, payload)
+                obj.add_recipient({"alg": "A128KW"}, kw)
+                token, key = jwe.encrypt_json(obj, None), kw
+            elif desc.get("ser") == "flattened":
+                obj = jwe.FlattenedJSONEncryption(dict(prot, alg="dir"), payload)
+                obj.add_recipient({}, key)
+                token = jwe.encrypt_json(obj, None)
+            else:
+                token = jwe.encrypt_compact(dict(prot, alg="dir"), payload, key)
+            zm.__dict__.pop("compress", None)
+            part = desc.get("tamper")
+            if part:
+                if isinstance(token, str):
+                    seg = token.split(".")
+                    i = {"ciphertext": 3, "tag": 4, "iv": 2}[part]
+                    b = bytearray(base64.urlsafe_b64decode(seg[i] + "=" * (-len(seg[i]) % 4))); b[0] ^= 1
+                    seg[i] = base64.urlsafe_b64encode(bytes(b)).rstrip(b"=").decode()
+                    token = ".".join(seg)
+                else:
+                    b = bytearray(base64.urlsafe_b64decode(token[part] + "=" * (-len(token[part]) % 4))); b[0] ^= 1
+                    token[part] = base64.urlsafe_b64encode(bytes(b)).rstrip(b"=").decode()
+            ins.reset()
+            kwargs = {"algorithms": desc["allowed"]} if desc.get("allowed") else {}
+            out = call(jwe.decrypt_compact if isinstance(token, str) else jwe.decrypt_json, token, key, **kwargs)
+            logx = list(ins.log)
+        res = ("ok %d octets" % len(out[1].plaintext)) if out[0] == "ok" else exn_class(out[1])
+        bad = []
+        dec_ok = None
+        for e in logx:
+            if e[0] == "decrypt":
+                dec_ok = e[2][1] if e[2][0] == "ok" else None
+            elif e[0] in ("decompress-enter", "inflate"):
+                arg = e[1] if e[0] == "decompress-enter" else e[2]
+                if dec_ok is None or bytes(arg) != bytes(dec_ok):
+                    bad.append("decompress applied to octets that are not the output of a successful enc.decrypt")
+                    break
+        n = desc["data"]["n"]
+        if part:
+            if out[0] == "ok":
+                bad.append("tampered token accepted")
+        elif zipv == "DEF" and not desc.get("allowed"):
+            if n <= LIMIT and (out[0] != "ok" or (p is not None and out[1].plaintext != p)):
+                bad.append("plaintext of %d octets not returned" % n)
+            if n > LIMIT and res != "EJose ExceededSizeError":
+                bad.append("expansion of %d octets not refused with ExceededSizeError" % n)
+        print("decrypt ->", res, "| events:", [e[0] for e in logx], "| verdict:", bad)
+        return 1 if bad else 0
     print("see the replay file for the failing case (re-run ./check C17 to reproduce)")
     return 1
